@@ -374,6 +374,8 @@ def gen_ws_stream(r, hs=None, small=False):
         x = r.random()
         if x < 0.1:
             m, _ = gen_ws_msg(r)
+            while len(m) > WS_RX:          # an incomplete frame that is also too big would close
+                m, _ = gen_ws_msg(r)
             f = ws_frame(m, mask=gen_wire.rbytes(r, 4))
             cut = r.randrange(1, len(f))
             parts.append(f[:cut])
